@@ -449,9 +449,9 @@ def rn4(prog):
                             "node(%s, %s) may be interned with two identical children: nothing on the path excludes that the "
                             "non-constant child is ⊥ (an unsatisfiable sub-result then becomes a non-constant node denoting "
                             "false instead of the false constant)" % (show(lo)[:40], show(hi)[:40])))
-    if n < 5:
+    if n < 3:
         out.append(inst("RN", "RN4:constructions", UNDECIDED, None, None,
-                        "expected >= 5 node constructions in the top-down builder, found %d" % n))
+                        "expected >= 3 node constructions in the top-down builder, found %d" % n))
     return out
 
 
